@@ -90,6 +90,17 @@ def gen_tree(rng, depth_above=None, small=False):
     if rng.chance(1, 3): t.file(root + b'404.html', b'<p>own 404</p>')
     if rng.chance(1, 2): t.file(root + b'allbytes.bin', bytes(range(256)) * 2); names.append(b'allbytes.bin')
     if rng.chance(1, 3): t.link(root + b'link.txt', b'sub/' + b'target.txt'); t.file(root + b'sub/target.txt', b'link target')
+    # the .html fallback below a directory whose name has a dot, and for a multi-dot name
+    if rng.chance(1, 2): t.file(root + b'v1.2/about.html', b'<p>about 1.2</p>'); names.append(b'v1.2/about.html')
+    if rng.chance(1, 2): t.file(root + b'release.notes.html', b'<p>notes</p>'); names.append(b'release.notes.html')
+    # links whose relative target climbs: inside the root, to an ancestor outside it, and above "/" (F41)
+    if rng.chance(1, 4) and names:
+        t.link(root + b'sub/up.lnk', b'../' + names[0]); names.append(b'sub/up.lnk')
+    if rng.chance(1, 5):
+        t.link(root + b'out.lnk', b'../' * (da + 1) + b'secret.txt'); names.append(b'out.lnk')
+    if rng.chance(1, 5):
+        depth = len(t.root.split(b'/')) - 1 + da + 1
+        t.link(root + b'climb.lnk', b'../' * (depth + rng.range(0, 2)) + t.root[1:] + b'/secret.txt'); names.append(b'climb.lnk')
     t.names = names
     return t
 
